@@ -103,8 +103,25 @@ pub fn gen_layout(rng: &mut Rng) -> Layout {
     } else {
         got_addr = segs[0].vaddr;
     }
+    // ---- occasionally a PT_LOAD nested inside another one (a section assigned to two segments by a
+    // PHDRS linker script): it starts higher and ends lower than its host, carries the same bytes, and
+    // follows it in the table, so p_vaddr still ascends
+    let mut nested = 0u64;
+    if rng.chance(1, 6) {
+        let hosts: Vec<usize> = (0..segs.len()).filter(|i| segs[*i].data.len() >= 16).collect();
+        if !hosts.is_empty() {
+            let hi = if rng.chance(1, 2) { *hosts.last().unwrap() } else { *rng.pick(&hosts) };
+            let hl = segs[hi].data.len() as u32;
+            let x = 1 + rng.below((hl - 2) as u64) as u32;
+            let len = 1 + rng.below((hl - x - 1).max(1) as u64) as u32;
+            let data = segs[hi].data[x as usize..(x + len) as usize].to_vec();
+            let inner = Seg { vaddr: segs[hi].vaddr + x, data, memsz: len, offset: 0 };
+            segs.insert(hi + 1, inner);
+            nested = 1 + (hi + 2 == segs.len()) as u64;
+        }
+    }
     // ---- program headers: loads in ascending order, non-load headers in any position
-    let mut phdrs: Vec<Phdr> = (0..nseg).map(|i| Phdr { load: Some(i), raw: [0; 8] }).collect();
+    let mut phdrs: Vec<Phdr> = (0..segs.len()).map(|i| Phdr { load: Some(i), raw: [0; 8] }).collect();
     let nnon = match rng.below(4) {
         0 => 0,
         1 => 1,
@@ -196,7 +213,7 @@ pub fn gen_layout(rng: &mut Rng) -> Layout {
     }
     let first_nonload = phdrs.first().map(|p| p.load.is_none()).unwrap_or(false);
     let got_place = if got_entries.is_empty() { 0 } else { 1 + (got_addr & 3 != 0) as u64 };
-    let shape = [nseg as u64, (nonload_last as u64) * 2 + first_nonload as u64 + 4 * (nnon.min(1) as u64), got_place, (nargs.min(4)) as u64, (stack_size == 0) as u64 + 2 * (stack_size == 0x10000) as u64 + 4 * (stack_size & 3 != 0) as u64];
+    let shape = [nseg as u64 + 8 * nested, (nonload_last as u64) * 2 + first_nonload as u64 + 4 * (nnon.min(1) as u64), got_place, (nargs.min(4)) as u64, (stack_size == 0) as u64 + 2 * (stack_size == 0x10000) as u64 + 4 * (stack_size & 3 != 0) as u64];
     Layout { segs, phdrs, got_addr, got_entries, stack_size, symbols, exit_index, args, section_order, shape }
 }
 
@@ -241,16 +258,41 @@ pub fn write_elf(l: &mut Layout, rng: &mut Rng) -> Vec<u8> {
     let names = [".text", ".data", ".got", ".bss", ".stack", ".shstrtab", ".symtab", ".strtab", ".got.plt", ".stackx", ".comment"];
     let mut shstr: Vec<u8> = vec![0];
     let mut name_off = vec![0u32; names.len()];
+    // one file in three shares string-table tails the way linkers do: ".got" is stored only as the tail
+    // of ".rela.got", ".strtab" as the tail of ".shstrtab", ".stack" as the tail of ".note.stack"
+    let share = rng.chance(1, 3);
     for (i, n) in names.iter().enumerate() {
+        if share && matches!(*n, ".got" | ".strtab" | ".stack") {
+            continue;
+        }
+        if share && *n == ".shstrtab" {
+            name_off[7] = shstr.len() as u32 + 2;
+        }
         name_off[i] = shstr.len() as u32;
         shstr.extend_from_slice(n.as_bytes());
         shstr.push(0);
     }
+    if share {
+        name_off[2] = shstr.len() as u32 + 5;
+        shstr.extend_from_slice(b".rela.got\0");
+        name_off[4] = shstr.len() as u32 + 5;
+        shstr.extend_from_slice(b".note.stack\0");
+    }
     let mut strtab: Vec<u8> = vec![0];
     let mut sym_name_off = vec![];
+    let share_sym = rng.chance(1, 4);
+    let mut shared_exit: Option<u32> = None;
     for (n, _) in &l.symbols {
         if n.is_empty() {
             sym_name_off.push(0u32);
+        } else if share_sym && n == "___exit" {
+            // stored only as the tail of a longer entry
+            let off = *shared_exit.get_or_insert_with(|| {
+                let o = strtab.len() as u32;
+                strtab.extend_from_slice(b"at___exit\0");
+                o + 2
+            });
+            sym_name_off.push(off);
         } else {
             sym_name_off.push(strtab.len() as u32);
             strtab.extend_from_slice(n.as_bytes());
